@@ -119,7 +119,7 @@ func e1Specs(prop, tier string) []engines.E1Spec {
 			l    int
 		}
 		inits := []init{{"hello", 5}, {"", 0}}
-		flagSets := []int{os.O_RDONLY, os.O_WRONLY, os.O_RDWR, os.O_RDWR | os.O_APPEND, os.O_RDWR | os.O_TRUNC}
+		flagSets := []int{os.O_RDONLY, os.O_WRONLY, os.O_RDWR, os.O_RDWR | os.O_APPEND, os.O_RDWR | os.O_TRUNC, os.O_WRONLY | os.O_APPEND}
 		caches := []string{"memory", "file"}
 		depth := 3
 		if tier != "quick" {
@@ -201,7 +201,7 @@ func e1Specs(prop, tier string) []engines.E1Spec {
 		out := []engines.E1Spec{}
 		depth := 2
 		if tier != "quick" {
-			depth = 3
+			depth = 4
 		}
 		for si, setup := range engines.ROSetups() {
 			for _, nowrite := range []bool{false, true} {
@@ -218,23 +218,21 @@ func e1Specs(prop, tier string) []engines.E1Spec {
 	case "C09":
 		out := []engines.E1Spec{}
 		type pl struct{ enc, sig, comp string }
-		pls := []pl{{"age", "", ""}, {"pgp", "minisign", "gzip"}}
-		depth := 2
-		if tier != "quick" {
-			pls = nil
-			for _, e := range []string{"age", "pgp"} {
-				for _, s := range []string{"", "minisign", "pgp"} {
-					for _, c := range []string{"", "gzip", "zstandard"} {
-						pls = append(pls, pl{e, s, c})
-					}
+		pls := []pl{}
+		for _, e := range []string{"age", "pgp"} {
+			for _, s := range []string{"", "minisign", "pgp"} {
+				for _, c := range []string{"", "gzip", "zstandard"} {
+					pls = append(pls, pl{e, s, c})
 				}
 			}
-			depth = 4
 		}
-		if tier == "quick" {
-			depth = 3
-		}
-		for _, x := range pls {
+		for i, x := range pls {
+			depth := 2
+			if tier != "quick" {
+				depth = 4
+			} else if i == 0 || i == 13 {
+				depth = 3
+			}
 			out = append(out, engines.E1Spec{Name: fmt.Sprintf("M/enc=%s,sig=%s,comp=%s", x.enc, x.sig, x.comp), Cfg: rig.Config{Encryption: x.enc, Signature: x.sig, Compression: x.comp, RecordSize: 20},
 				Alphabet: engines.MarkerAlphabet(), Depth: depth, Oracles: or, Level: "raw"})
 		}
@@ -327,6 +325,7 @@ func runC10(rep *engines.Report, p *pool.Pool, tier string) int {
 	if tier != "quick" {
 		specs = []engines.E3Spec{
 			{Name: "F-full/none/rs20", Cfg: cfgNone, Alphabet: engines.FaultAlphabet(true), Depth: 3},
+			{Name: "F/none/rs1/wc=file", Cfg: rig.Config{RecordSize: 1, WriteCache: "file"}, Alphabet: engines.FaultAlphabet(false), Depth: 4},
 			{Name: "F/gzip+age+minisign/rs1/wc=file", Cfg: rig.Config{RecordSize: 1, Compression: "gzip", Encryption: "age", Signature: "minisign", WriteCache: "file"}, Alphabet: engines.FaultAlphabet(false), Depth: 2},
 		}
 		budget = 25 * time.Minute
@@ -595,8 +594,8 @@ func runC18(rep *engines.Report, p *pool.Pool, tier string) int {
 func runC08(rep *engines.Report, p *pool.Pool, tier string) int {
 	rep.Level = "fault_enumeration"
 	type pl struct{ sig, enc, comp string }
-	pls := []pl{{"minisign", "", ""}, {"pgp", "", ""}, {"pgp", "age", "gzip"}}
-	policy, shards := "quick", 16
+	pls := []pl{{"minisign", "", ""}, {"pgp", "", ""}, {"pgp", "age", "gzip"}, {"minisign", "pgp", "zstandard"}}
+	policy, shards := "quick", 12
 	budget := 4 * time.Minute
 	if tier != "quick" {
 		pls = nil
